@@ -29,7 +29,8 @@ impl From<Rgb> for Hue {
             hue += 360.0
         }
 
-        hue.round()
+        // a hue rounding up to 360 is the same angle as 0
+        hue.round() % 360.0
     }
 }
 
